@@ -87,6 +87,11 @@ func (cr *serverConnReader) runInner() error {
 	var rw io.ReadWriter = cr.sc.bc
 
 	if cr.sc.tunnel == TunnelNone {
+		// tunnel detection reads from the connection too: without a deadline,
+		// a peer that connects and sends less than 4 bytes (or an incomplete
+		// HTTP request) is never timed out.
+		cr.sc.nconn.SetReadDeadline(time.Now().Add(cr.sc.s.IdleTimeout))
+
 		var err error
 		rw, err = cr.handleTunneling(rw)
 		if err != nil {
